@@ -691,6 +691,31 @@ class Evaluator:
     def e_BinaryOperator(self, n, st):
         op = n['opcode']
         l, r = n['inner'][0], n['inner'][1]
+        if op == '=' and qt(l) != 'bool':
+            # count = static_cast<T>(count + static_cast<T>(ok)): the += form spelled out for -Wconversion
+            core = r
+            while core.get('kind') in ('ImplicitCastExpr', 'CXXStaticCastExpr', 'CStyleCastExpr', 'CXXFunctionalCastExpr', 'ParenExpr') \
+                    and core.get('castKind', 'IntegralCast') in ('IntegralCast', 'NoOp') \
+                    and len([c for c in core.get('inner', []) if isinstance(c, dict) and c.get('kind')]) == 1:
+                core = [c for c in core['inner'] if isinstance(c, dict) and c.get('kind')][0]
+            if core.get('kind') == 'BinaryOperator' and core.get('opcode') == '+':
+                ops2 = [c for c in core.get('inner', []) if isinstance(c, dict) and c.get('kind')]
+                if len(ops2) == 2:
+                    def same_var(x):
+                        y = x
+                        while y.get('kind') in ('ImplicitCastExpr', 'ParenExpr', 'CXXStaticCastExpr') and y.get('inner'):
+                            y = [c for c in y['inner'] if isinstance(c, dict) and c.get('kind')][0]
+                        ll = self.strip(l)
+                        return y.get('kind') == 'DeclRefExpr' and ll.get('kind') == 'DeclRefExpr' and \
+                            (y.get('referencedDecl') or {}).get('id') == (ll.get('referencedDecl') or {}).get('id')
+                    for a, b in ((ops2[0], ops2[1]), (ops2[1], ops2[0])):
+                        if same_var(a) and self.bool_under_casts(b) is not None:
+                            for st2, truth in self.cond(self.bool_under_casts(b), st):
+                                for st3, lt in self.eval(l, st2):
+                                    old_v = self.load(st3, lt, n)
+                                    self.write(st3, lt, self.arith('+', old_v, ('int', 1 if truth else 0)), n, '+=')
+                                    yield st3, lt
+                            return
         if op == '=':
             if qt(l) == 'bool' and self.is_bool_expr(r):
                 for st2, truth in self.cond(self.bool_core(r), st):
@@ -1838,6 +1863,20 @@ class Evaluator:
         for t, an in zip(ts, arg_nodes or []):
             if typeclass(qt(an)) in ITERATORS:
                 st.ev('use', t, 'arg:' + name, s)
+        if tc == 'list' and name == 'splice' and len(ts) == 4 and isinstance(ts[3], tuple) and ts[3][:2] == ('adv', 1) \
+                and len(ts[3]) > 2 and ts[3][2] == ts[2]:
+            # splice(pos, l, first, std::next(first)): the one-node range [first, next(first)) is the single-node overload
+            yield from self.std_call(n, st, recv, tc, name, list(ts[:3]), arg_nodes=(arg_nodes or [])[:3])
+            return
+        if tc == 'map' and name == 'equal_range' and len(ts) == 1 and root_of(recv)[0] in ('field', 'this'):
+            # unique keys: equal_range(k) is [find(k), next(find(k))) when k is present, otherwise the empty range at the place k would
+            # be inserted ([lower_bound(k), lower_bound(k)))
+            for st2, lb in self.std_call(n, st, recv, tc, 'lower_bound', ts, arg_nodes=arg_nodes):
+                if isinstance(lb, tuple) and lb[:2] == ('q', 'find'):
+                    yield st2, ('pair', lb, self.adv(st2, lb, 1, 'tree_it'))
+                else:
+                    yield st2, ('pair', lb, lb)
+            return
         if tc == 'map' and name == 'lower_bound' and len(ts) == 1 and root_of(recv)[0] in ('field', 'this'):
             # unique keys: lower_bound(k) is find(k) when k is present, otherwise the first entry with a greater key (or end())
             mk = (recv, key_norm(ts[0]))
@@ -2209,6 +2248,16 @@ class Evaluator:
         if typeclass(t) == 'lockguard':
             yield from self.declare_guard(v, st)
             return
+        if not v['type'].get('qualType', '').rstrip().endswith('&') and not v['type'].get('qualType', '').rstrip().endswith('*'):
+            rec0 = self.record_of(t) if typeclass(t) == 'other' else None
+            if rec0 is not None and getattr(rec0, 'dtor_body', None) is not None:
+                # a scope guard of the library's own: its destructor does part of the operation when the scope is left
+                self.unknown(st, 'local object of %s whose destructor does work at scope exit (scope guard) is not modelled' % rec0.name, v)
+            elif rec0 is None and typeclass(t) == 'other':
+                td = (v['type'].get('desugaredQualType') or t or '')
+                hit = next((c for c in getattr(self.prog, 'dtor_classes', ()) if re.search(r'cappuccino::(\w+::)*%s\b' % re.escape(c), td)), None)
+                if hit is not None:
+                    self.unknown(st, 'local object of %s whose destructor does work at scope exit (scope guard) is not modelled' % hit, v)
         init = [c for c in v.get('inner', []) if c.get('kind') and not c['kind'].endswith('Comment')]
         is_ref = v['type'].get('qualType', '').rstrip().endswith('&')
         if is_ref and init:
